@@ -9,4 +9,12 @@ CASES = (
     + [c for c in cases_c12.CASES if c.name in PICK12]
     + [c for c in cases_c08.CASES if c.name in PICK08]
 )
+import os as _os
+
+_PATCHES = _os.path.join(_os.path.dirname(_os.path.abspath(__file__)), "patches")
+CASES += [
+    # a chain walker added to the CLI (several offered roots on one command line) that pairs every
+    # offer with the file before it: zip(items, items[1:]) - the property holds
+    Case("walker-overlapping-pairs", "keep", [("@seed", _os.path.join(_PATCHES, "c04-walker-overlapping-pairs.diff"), None)], None),
+]
 MIN_APPLIED = 20
